@@ -758,7 +758,11 @@ int main(int argc, char **argv)
     QCoreApplication app(argc, argv);
     Args a = parseArgs(argc, argv);
     bool thorough = a.tier == "thorough";
-    Rng rng(a.seed);
+    // vh::Rng(seed) starts at seed*gamma + c and advances by gamma, so consecutive seeds give the same stream shifted by
+    // one draw; hash the seed first so that VERIF_SEED=1,2,3 are unrelated runs
+    uint64_t mixed = (a.seed + 0x632BE59BD9B4E019ull) * 0xD6E8FEB86659FD93ull;
+    mixed ^= mixed >> 32; mixed *= 0xD6E8FEB86659FD93ull; mixed ^= mixed >> 32;
+    Rng rng(mixed);
     auto cat = buildCatalogue(thorough);
     stat("payloads", (long long)cat.size());
 
